@@ -358,6 +358,10 @@ def splitAudioOnTier(
     if silenceLabel is not None:
         entries = [entry for entry in entries if entry.label != silenceLabel]
 
+    # Nothing to split (an empty tier, or nothing but silence)
+    if len(entries) == 0:
+        return []
+
     # Build the output name template
     name = os.path.splitext(os.path.split(wavFN)[1])[0]
     orderOfMagnitude = int(math.floor(math.log10(len(entries))))
